@@ -45,6 +45,45 @@ def mutable_statics(ix):
     return out
 
 
+
+def global_use_rule(rep, prog, rule):
+    """The list of interface records is used only by the context-keyed lookup (and by pure observers off the frame path): a
+    handler that walks it reads or writes another interface's record."""
+    from .frame_common import iface_list_name
+    LIST = iface_list_name(prog)
+    # uses of the global: only inside the lookup function
+    for ix in prog.index.values():
+        # the lookup "module": lltd_state_for_iface and the static helpers all of whose callers belong to it
+        callers = {}
+        for fname, fn in ix.functions.items():
+            for n in walk(fn):
+                if n.get('kind') == 'CallExpr' and n.get('inner'):
+                    c = callee(n)
+                    if c:
+                        callers.setdefault(c, set()).add(fname)
+        from .frame_common import state_lookup_name
+        module = {state_lookup_name(prog)}
+        grew = True
+        while grew:
+            grew = False
+            for fname, fn in ix.functions.items():
+                if fname not in module and fn.get('storageClass') == 'static' and callers.get(fname) and callers[fname] <= module:
+                    module.add(fname)
+                    grew = True
+        on_frame_path = set(reachable(prog, prog.unit(BLOCK_UNIT), 'parseFrame'))
+        for fname, fn in ix.functions.items():
+            if not is_core(fn):
+                continue
+            for n in walk(fn):
+                if n.get('kind') == 'DeclRefExpr' and n.get('referencedDecl', {}).get('name') == LIST:
+                    # besides the lookup module, a pure observer is harmless: a function that is not reachable from the frame
+                    # handler (it cannot influence what is sent) and only reads the list and the records (statistics accessor)
+                    observer = fname not in on_frame_path and read_only_walker(fn, LIST)
+                    rep.check(fname in module or observer, rule, 'global-use|%s' % fname,
+                              'the interface list is accessed in %s, outside the context-keyed lookup%s' % (
+                                  fname, ' (reachable from the frame handler)' if fname in on_frame_path else ' (and it writes the list or a record)'),
+                              node=n, function=fname)
+
 def run(tier):
     rep = Report('C17', tier)
     fnf = 'lltdResponder/lltdBlock.c'
@@ -114,38 +153,6 @@ def run(tier):
                       function='parseFrame', file=fnf)
     if nlink == 0:
         rep.broke('no final state of parseFrame carries the interface record')
-    # uses of the global: only inside the lookup function
-    for ix in prog.index.values():
-        # the lookup "module": lltd_state_for_iface and the static helpers all of whose callers belong to it
-        callers = {}
-        for fname, fn in ix.functions.items():
-            for n in walk(fn):
-                if n.get('kind') == 'CallExpr' and n.get('inner'):
-                    c = callee(n)
-                    if c:
-                        callers.setdefault(c, set()).add(fname)
-        from .frame_common import state_lookup_name
-        module = {state_lookup_name(prog)}
-        grew = True
-        while grew:
-            grew = False
-            for fname, fn in ix.functions.items():
-                if fname not in module and fn.get('storageClass') == 'static' and callers.get(fname) and callers[fname] <= module:
-                    module.add(fname)
-                    grew = True
-        on_frame_path = set(reachable(prog, prog.unit(BLOCK_UNIT), 'parseFrame'))
-        for fname, fn in ix.functions.items():
-            if not is_core(fn):
-                continue
-            for n in walk(fn):
-                if n.get('kind') == 'DeclRefExpr' and n.get('referencedDecl', {}).get('name') == LIST:
-                    # besides the lookup module, a pure observer is harmless: a function that is not reachable from the frame
-                    # handler (it cannot influence what is sent) and only reads the list and the records (statistics accessor)
-                    observer = fname not in on_frame_path and read_only_walker(fn, LIST)
-                    rep.check(fname in module or observer, 'R17.2', 'global-use|%s' % fname,
-                              'the interface list is accessed in %s, outside the context-keyed lookup%s' % (
-                                  fname, ' (reachable from the frame handler)' if fname in on_frame_path else ' (and it writes the list or a record)'),
-                              node=n, function=fname)
     # ---- R17.3 lockset over the daemons that parse here
     daemons = [('systemd', 'os/linux/daemon/linux-main.c'), ('embedded', 'os/linux/daemon/linux-embedded-main.c')]
     analysed = []
